@@ -51,19 +51,28 @@ ASSUMPTIONS = set()
 MEMO = {}            # per path: stub answers keyed by the argument terms (determinism of the libraries)
 
 
+KEEP = []            # terms used in memo keys are kept alive: z3 reuses the ids of freed terms
+
+
 def reset_path():
     del CALLS[:]
     MEMO.clear()
+    del KEEP[:]
 
 
 def _key(x):
     if isinstance(x, SymFloat):
         if getattr(x, 'v', None) is None:
             return ('inf', x.pos)
-        return ('F', z3.simplify(x.n).get_id(), z3.simplify(x.v).get_id())
+        a, b = z3.simplify(x.n), z3.simplify(x.v)
+        KEEP.extend((a, b))
+        return ('F', a.get_id(), b.get_id())
     if isinstance(x, SymInt):
-        return ('I', z3.simplify(x.e).get_id())
+        a = z3.simplify(x.e)
+        KEEP.append(a)
+        return ('I', a.get_id())
     if isinstance(x, SymBool):
+        KEEP.append(x.e)
         return ('B', x.e.get_id())
     if isinstance(x, float):
         return ('f', repr(float(x)))
